@@ -112,6 +112,39 @@ Proof. intros H1 H2. unfold src_img_bounded_resulting_position. src_robust. Qed.
 Lemma src_img_bounded_advances_eq m rp pos : src_img_bounded_advances m rp pos = Ok (rp >? pos).
 Proof. unfold src_img_bounded_advances. src_robust. Qed.
 
+(* ---- controlled_poll (Image.cloop / cfinish) ---- *)
+Lemma src_img_controlled_initial_offset_eq m tl pos :
+  src_img_controlled_initial_offset m (tl - 1) pos = Ok (term_offset_of_pos tl pos).
+Proof. unfold src_img_controlled_initial_offset, term_offset_of_pos. first [ reflexivity | rewrite Z.land_comm; reflexivity | src_robust ]. Qed.
+
+Lemma src_img_controlled_loop_eq m n limit off cap sp : in_i32 off = true -> in_i32 (off + sp) = true ->
+  src_img_controlled_continue m n limit off cap = Ok ((n <? limit) && (off <? cap)) /\
+  src_img_controlled_advance m off sp = Ok (off + sp) /\
+  src_img_controlled_abort m (off + sp) sp = Ok (off + sp - sp).
+Proof. intros H0 H. unfold src_img_controlled_continue, src_img_controlled_advance, src_img_controlled_abort.
+  split; [|split]; src_robust. Qed.
+
+Lemma src_img_controlled_positions_eq m ipos off ioff : in_i32 (off - ioff) = true -> in_i64 (ipos + (off - ioff)) = true ->
+  src_img_controlled_commit m ipos off ioff = Ok (ipos + (off - ioff)) /\
+  src_img_controlled_resulting_position m ipos off ioff = Ok (ipos + (off - ioff)).
+Proof. intros H1 H2. unfold src_img_controlled_commit, src_img_controlled_resulting_position. split; src_robust. Qed.
+
+(* ---- block_poll (Image.image_block_poll) ---- *)
+Lemma src_img_block_term_offset_eq m tl pos : src_img_block_term_offset m (tl - 1) pos = Ok (term_offset_of_pos tl pos).
+Proof. unfold src_img_block_term_offset, term_offset_of_pos. first [ reflexivity | rewrite Z.land_comm; reflexivity | src_robust ]. Qed.
+
+Lemma src_img_block_limit_offset_eq m tl off blimit :
+  src_img_block_limit_offset m tl off blimit = (s <- add32 m off blimit ;; Ok (Z.min s tl)).
+Proof. unfold src_img_block_limit_offset. cbv zeta. srcT_unfold_ops. cbn [bind]. repeat unify_chk.
+  first [ reflexivity | apply bind_ext; intros s _; first [ reflexivity | rewrite Z.min_comm; reflexivity ] ]. Qed.
+
+Lemma src_img_block_result_eq m pos ro off : in_i32 (ro - off) = true -> in_i64 (pos + (ro - off)) = true ->
+  src_img_block_length m ro off = Ok (ro - off) /\
+  src_img_block_nonempty m ro off = Ok (ro >? off) /\
+  src_img_block_new_position m pos (ro - off) = Ok (pos + (ro - off)).
+Proof. intros H1 H2. unfold src_img_block_length, src_img_block_nonempty, src_img_block_new_position.
+  split; [|split]; src_robust. Qed.
+
 (* ---- validate_position ---- *)
 Theorem src_img_validate_position_eq m bits tl cur newp :
   0 <= bits <= 30 -> tl = 2 ^ bits -> 0 <= cur -> cur + tl < two63 ->
